@@ -29,6 +29,7 @@ PAIRS = [(0, 0), (1, 1), (2, 2), (0, 1), (0, 2), (1, 2)]
 HYPN = {"tri": 3, "pstrain": 2, "gps": 2, "axis": 2, "pstress": 2, "agpstrain": 1}
 R2 = math.sqrt(2.0)
 ARRAY_FINDING_KEYS = ("emitted:tg_arrg_pstrain", "emitted:tg_arrf_pstrain")
+ORTHO_PS_KEY = "exec:pstress-tangent:ortho"
 
 
 from tens import full_s, flat_s, full_r, tr, rot2, full_A, flat_A, rot4, mul42, hooke, ortho_compliance_inverse  # noqa: E402,F401
@@ -170,16 +171,23 @@ def generated_behaviour_sources(c, gdir):
 
 
 def build_driver(c, sdir, flags):
-    """objects of the generated sources with 2 compile jobs at a time (shared machine), then the link through c.cxx (cache hits)"""
-    srcs = [os.path.join(sdir, "src", p + sfx + ".cxx") for p in gbexec.PROGRAMS for sfx in ("", "-generic")]
+    """objects of the generated sources (vlib's object cache), 2 compile jobs at a time (shared machine), then the link"""
+    order = ["C44IsoElastic", "C44OrthoElastic", "C44Plastic", "C44Norton"]  # the first two are also linked into trace_ps
+    assert sorted(order) == sorted(gbexec.PROGRAMS)
+    srcs = [os.path.join(sdir, "src", p + ".cxx") for p in order] + [os.path.join(sdir, "src", p + "-generic.cxx") for p in order]
     fl = c.cxx_flags() + ["-O1"] + flags
     with ThreadPoolExecutor(max_workers=2) as ex:
-        list(ex.map(lambda f: c._obj(f, fl), srcs + [os.path.join(HERE, "drive.cxx")]))
-    return c.cxx("drive", ["drive.cxx"] + srcs, gbexec.SUPPORT, flags=flags)
+        objs = list(ex.map(lambda f: c._obj(f, fl), srcs + [os.path.join(HERE, "drive.cxx")] + [os.path.join(vlib.REPO, f) for f in gbexec.SUPPORT]))
+    exe = os.path.join(c.work, "drive")
+    rc, out, err = vlib.sh(["g++"] + objs + ["-o", exe, "-lpthread"], timeout=600)
+    if rc != 0:
+        raise vlib.BuildError("link of drive failed:\n%s" % err[-4000:])
+    return exe
 
 
 def run_ps_tracer(c, sdir, flags):
-    exe = c.cxx("trace_ps", ["trace_ps.cxx", os.path.join(sdir, "src", "C44IsoElastic.cxx")], gbexec.SUPPORT, flags=flags)
+    exe = c.cxx("trace_ps", ["trace_ps.cxx", os.path.join(sdir, "src", "C44IsoElastic.cxx"), os.path.join(sdir, "src", "C44OrthoElastic.cxx")],
+                gbexec.SUPPORT, flags=flags)
     gen = os.path.join(c.work, "coq", "C44PS_gen.v")
     os.makedirs(os.path.dirname(gen), exist_ok=True)
     rc, out, err = c.run([exe, "gen", gen, str(c.seed % 1000003), str(c.pick(200, 3000))], timeout=600)
@@ -222,6 +230,7 @@ def main(c):
         f_drv = ex.submit(build_driver, c, sdir, bflags)
         f_ps = ex.submit(run_ps_tracer, c, sdir, bflags)
         exe, drv, (ps_rc, ps_out, ps_err, ps_gen) = f_tr.result(), f_drv.result(), f_ps.result()
+    c.log("tracers and driver built")
     gen = os.path.join(c.work, "coq", "C44_gen.v")
     os.makedirs(os.path.dirname(gen), exist_ok=True)
     ncases = c.pick(120, 2000)
@@ -273,6 +282,7 @@ def main(c):
                           "(1/3 arbitrary 3x3, 1/3 in-plane rotations, 1/3 general rotations), admissible elastic constants; "
                           "every RUN compared with a closed-form Python statement (Q^T e Q, Q s Q^T, index-notation rotation, Hooke, inverse of the documented compliance)")
 
+    c.log("tracer of the rotation functions / Hooke responses judged")
     # ---- (c) tracer of the generated plane-stress class: agreement Sym vs double
     ps_ok = ps_rc == 0
     if not ps_ok:
@@ -303,20 +313,32 @@ def main(c):
                            "x seeded rotations (quaternion in 3D, angle about z in plane hypotheses); loadings uniaxial x, equibiaxial, shear xy, random in-plane, random "
                            "with e_zz in every hypothesis that can represent them; plane stress axial strain re-imposed in generalised plane strain and 3D")
 
+    c.log("execution stage done")
     # ---- Coq
-    ps_chain = [ps_gen, "C44PSStatements.v", "C44ProofsPS.v", "Properties_C44_pstress.v"]
+    # defect F-C44b (orthotropic plane-stress jacobian) observed by the execution stage -> the refutation is compiled instead of the positive theorem
+    ps_finding = ORTHO_PS_KEY in c.known_hits or any(v[0] == ORTHO_PS_KEY for v in c.violations)
+    ps_chain = [ps_gen, "C44PSStatements.v", "C44ProofsPS.v", "Properties_C44_pstress.v"] + (
+        ["C44ProofsPSOrthoRefuted.v", "Properties_C44_pstress_ortho_refuted.v"] if ps_finding else ["C44ProofsPSOrtho.v", "Properties_C44_pstress_ortho.v"])
+    if ps_finding:
+        c.notes.append("orthotropic plane-stress jacobian defect (F-C44b) observed by the execution stage: Properties_C44_pstress_ortho_refuted.v selected (see known_findings.json)")
     finding = all(k.split(":", 1)[1] in bad_ops for k in ARRAY_FINDING_KEYS)
     common = [gen, "C44Spec.v", "C44Nsatz.v", "C44Tactics.v", "C44Statements.v"]
-    r0 = c.coq(common, timeout=900)
+    # the plane-stress chain is independent of the first-round files: it is compiled alongside the common files (2 coqc at a time),
+    # the four proof files afterwards (4 at a time)
+    with ThreadPoolExecutor(max_workers=1) as ex_ps:
+        f_ps = ex_ps.submit(lambda: c.coq(ps_chain, timeout=900)) if ps_rc == 0 else None
+        r0 = c.coq(common, timeout=900)
+        r_ps = f_ps.result() if f_ps else None
+    c.log("coq: common files and plane-stress chain done; seconds per file: %s" % (
+        [(os.path.basename(str(f[0])), round(f[2])) for r in (r0, r_ps) if r is not None for f in r.files],))
     results = [r0]
     if r0.ok:
         par = ["C44ProofsA.v", "C44ProofsB.v", "C44ProofsOrth.v"]
         if not finding:
             par.append("C44ProofsArr2.v")
         with ThreadPoolExecutor(max_workers=4) as ex:
-            f_ps = ex.submit(lambda: c.coq(ps_chain, timeout=900)) if ps_rc == 0 else None
             rs = list(ex.map(lambda f: c.coq([f], timeout=1500), par))
-            r_ps = f_ps.result() if f_ps else None
+        c.log("coq: proof files done")
         results += rs
         if all(r.ok for r in rs):
             last = ["Properties_C44.v", "Properties_C44_arrays_refuted.v" if finding else "Properties_C44_arrays.v"]
@@ -331,12 +353,17 @@ def main(c):
             # the Properties files cannot be compiled: their theorems are undischarged obligations
             txt = open(os.path.join(HERE, "coq", "Properties_C44.v")).read()
             c.coverage["obligations"] += len(re.findall(r"^Theorem ", txt, flags=re.M))
-    else:
-        r_ps = c.coq(ps_chain, timeout=900) if ps_rc == 0 else None
     if r_ps is None:
-        txt = open(os.path.join(HERE, "coq", "Properties_C44_pstress.v")).read()
-        c.coverage["obligations"] += len(re.findall(r"^Theorem ", txt, flags=re.M))
+        for f in ps_chain:
+            if str(f).startswith("Properties"):
+                c.coverage["obligations"] += len(re.findall(r"^Theorem ", open(os.path.join(HERE, "coq", f)).read(), flags=re.M))
     elif not r_ps.ok:
+        # the chain stops at the first failing file: the theorems of the Properties files after it are undischarged obligations
+        names = [os.path.basename(str(f)) for f in ps_chain]
+        first = min([names.index(os.path.basename(f[0])) for f in r_ps.failed if os.path.basename(f[0]) in names] or [0])
+        for f in names[first + 1:]:
+            if f.startswith("Properties"):
+                c.coverage["obligations"] += len(re.findall(r"^Theorem ", open(os.path.join(HERE, "coq", f)).read(), flags=re.M))
         # failing-input search for the plane-stress theorems: the execution stage above runs the very same generated class
         # (keys exec:pstress:iso*, exec:hyp:iso*); if it reported nothing, the broken obligation itself is reported
         if any(v[0].startswith(("exec:pstress:iso", "exec:pstress-tangent:iso", "exec:frame:iso:pstress")) for v in c.violations):
